@@ -249,4 +249,198 @@ def SOp.arg : SOp → Bytes
   | .inplace _ s => s
   | .flush => []
 
+
+/-! ## Part 2 (C09): a file with a volatile image and what a crash may leave on disk
+
+An image is a length and a byte function (bytes at or beyond `len` read as 0 through `get`).
+Events are what the LD_PRELOAD shim records for the output file of `build_binary`:
+`create`, `truncate n`, `pwrite off bytes` (also `write` at the current offset), `store off
+bytes` (stores through a shared mapping, recovered by diffing snapshots), `msync lo hi`,
+`fsync`, `munmap`, `close`.
+
+Crash model (assumed, not observed — DESIGN §2):
+* process kill after `k` events ⇒ the file is the volatile image after `k` events;
+* power loss after `k` events ⇒ the length is the length after some `jl ≤ k` events with no
+  sync of any kind in `(jl, k]`; every 512-byte sector independently holds its content after
+  some `j ≤ k` events with no sync *covering that sector* in `(j, k]` (sector writes are
+  atomic; unsynced writes may reach the disk in any order or not at all);
+* the path did not exist before (`create` starts from the empty durable image).
+-/
+namespace Fs
+
+def kSector : Nat := 512
+
+structure Img where
+  len : Nat
+  byte : Nat → Nat
+
+def Img.get (m : Img) (i : Nat) : Nat := if i < m.len then m.byte i else 0
+
+def Img.empty : Img := ⟨0, fun _ => 0⟩
+
+/-- extensional equality of images -/
+def Img.eqv (a b : Img) : Prop := a.len = b.len ∧ ∀ i, a.get i = b.get i
+
+def Img.toList (m : Img) : Bytes := (List.range m.len).map m.byte
+
+def Img.ofArray (a : Array Nat) : Img := ⟨a.size, fun i => a.getD i 0⟩
+
+inductive Ev where
+  | create
+  | truncate (n : Nat)
+  | pwrite (off : Nat) (bs : Array Nat)
+  | store (off : Nat) (bs : Array Nat)
+  | msync (lo hi : Nat)
+  | fsync
+  | munmap
+  | close
+  deriving Repr, Inhabited
+
+def Img.write (m : Img) (off : Nat) (bs : Array Nat) : Img :=
+  ⟨max m.len (off + bs.size), fun i => if off ≤ i ∧ i < off + bs.size then bs.getD (i - off) 0 else m.get i⟩
+
+def Img.trunc (m : Img) (n : Nat) : Img := ⟨n, fun i => m.get i⟩
+
+/-- effect of an event on the volatile image (page cache) -/
+def Ev.apply (m : Img) : Ev → Img
+  | .create => Img.empty
+  | .truncate n => m.trunc n
+  | .pwrite off bs => m.write off bs
+  | .store off bs => m.write off bs
+  | _ => m
+
+def Ev.isWrite : Ev → Bool
+  | .create | .truncate _ | .pwrite _ _ | .store _ _ => true
+  | _ => false
+
+def Ev.isSync : Ev → Bool
+  | .msync _ _ | .fsync => true
+  | _ => false
+
+/-- does this event force sector `s` of a file of length `len` to stable storage? -/
+def Ev.covers (e : Ev) (len s : Nat) : Bool :=
+  match e with
+  | .fsync => true
+  | .msync lo hi => decide (lo ≤ s * kSector) && decide (min ((s + 1) * kSector) len ≤ hi)
+  | _ => false
+
+/-- does this event force the whole file (length `len`) to stable storage? -/
+def Ev.fullSync (e : Ev) (len : Nat) : Bool :=
+  match e with
+  | .fsync => true
+  | .msync lo hi => decide (lo = 0) && decide (len ≤ hi)
+  | _ => false
+
+abbrev Trace := List Ev
+
+/-- volatile image after the first `k` events -/
+def vol (t : Trace) (k : Nat) : Img := (t.take k).foldl Ev.apply Img.empty
+
+def final (t : Trace) : Img := vol t t.length
+
+/-- version `j` of sector `s` may still be what the disk holds after `k` events -/
+def VerOK (t : Trace) (k s j : Nat) : Prop :=
+  j ≤ k ∧ ∀ y, j < y → y ≤ k → ∀ e, t[y - 1]? = some e → e.covers (vol t y).len s = false
+
+def LenOK (t : Trace) (k jl : Nat) : Prop :=
+  jl ≤ k ∧ ∀ y, jl < y → y ≤ k → ∀ e, t[y - 1]? = some e → e.isSync = false
+
+/-- `img` is a possible disk content after a power loss following event `k` -/
+def Crash (t : Trace) (k : Nat) (img : Img) : Prop :=
+  k ≤ t.length ∧
+  (∃ jl, LenOK t k jl ∧ img.len = (vol t jl).len) ∧
+  ∀ s, ∃ j, VerOK t k s j ∧ ∀ i, i / kSector = s → i < img.len → img.get i = (vol t j).get i
+
+/-- the binary format as far as C09 needs it: the reference `Sanity` bytes (regenerated),
+`kMagicIncomplete`, the total header size of this build, the size the header announces
+(`LoadBinary`'s `total_map`, as a function of the header bytes) and the remaining header
+checks (`ReadHeader`, `MatchCheck`) -/
+structure Fmt where
+  sanity : Array Nat
+  incomplete : Array Nat
+  headerSize : Nat
+  totalMap : Bytes → Nat
+  paramsOK : Bytes → Bool
+  hasVocab : Bytes → Bool
+
+def prefixIs (m : Img) (a : Array Nat) : Bool :=
+  (List.range a.size).all fun i => m.get i == a.getD i 0
+
+/-- `IsBinaryFormat`: the file is longer than `Sanity` and starts with the reference header -/
+def hasSanity (f : Fmt) (m : Img) : Bool := decide (f.sanity.size < m.len) && prefixIs m f.sanity
+
+def header (f : Fmt) (m : Img) : Bytes := (List.range f.headerSize).map m.get
+
+def kUnk : Array Nat := #[60, 117, 110, 107, 62, 0]   -- "<unk>\0"
+
+/-- `ReadWords`' check that the vocabulary strings start with `<unk>\0` (only when the header says
+the file has them) -/
+def vocabOK (f : Fmt) (m : Img) : Bool :=
+  !f.hasVocab (header f m) ||
+    (decide (f.totalMap (header f m) + kUnk.size ≤ m.len) &&      -- `ReadOrThrow(fd, check_unk, 6)`: EOF otherwise
+     (List.range kUnk.size).all fun i => m.get (f.totalMap (header f m) + i) == kUnk.getD i 0)
+
+/-- the loader accepts: `IsBinaryFormat` ∧ `ReadHeader` can read the whole header and accepts it ∧
+`MatchCheck` ∧ the `LoadBinary` size check ∧ the `<unk>` check of `ReadWords` -/
+def loads (f : Fmt) (m : Img) : Bool :=
+  hasSanity f m && decide (f.headerSize ≤ m.len) && f.paramsOK (header f m) &&
+  decide (f.totalMap (header f m) ≤ m.len) && vocabOK f m
+
+/-- queries only look at the mapped region `[0, totalMap)` -/
+def queriesEqual (f : Fmt) (a b : Img) : Prop :=
+  ∀ i, i < f.totalMap (header f b) → a.get i = b.get i
+
+/-- least `i < n` with `p i` -/
+def firstIdx (p : Nat → Bool) : Nat → Option Nat
+  | 0 => none
+  | n+1 => match firstIdx p n with
+    | some i => some i
+    | none => if p n then some n else none
+
+/-- index of the commit event: the first event after which the volatile image starts with the
+complete `Sanity` header -/
+def commitIdx (f : Fmt) (t : Trace) : Option Nat :=
+  firstIdx (fun c => prefixIs (vol t (c + 1)) f.sanity) t.length
+
+def noWriteBetween (t : Trace) (a b : Nat) : Bool :=
+  (List.range t.length).all fun j => !(decide (a < j) && decide (j < b)) || !(t.getD j .close).isWrite
+
+/-- the "incomplete" marker: before the commit every non-empty image starts with `kMagicIncomplete`
+or with zeros (WRITE_AFTER writes the vocabulary strings first, leaving a hole at offset 0) -/
+def markerOK (f : Fmt) (t : Trace) (c : Nat) : Bool :=
+  (List.range (c + 1)).all fun j =>
+    let m := vol t j
+    decide (m.len = 0) || prefixIs m f.incomplete || prefixIs m (Array.replicate f.incomplete.size 0)
+
+/-- **the writer protocol**, decidable, transcribed from lm/binary_format.cc
+(SetupJustVocab / GrowForSearch / WriteVocabWords / FinishFile / WriteHeader):
+there is a commit event `c`; it is a single write inside the header `[0, headerSize)` of a file
+that is already at least that long; the header fits a sector; nothing is written after it; some earlier event `y` is a sync of the
+whole file as it then is, and nothing is written between `y` and `c`; until `c` the file
+shows the incomplete marker. -/
+def conforms (f : Fmt) (t : Trace) : Bool :=
+  match commitIdx f t with
+  | none => false
+  | some c =>
+    decide (f.headerSize ≤ kSector) && decide (f.sanity.size < f.headerSize) &&
+    !prefixIs Img.empty f.sanity && decide (f.headerSize ≤ (vol t c).len) &&
+    (match t.getD c .close with
+     | .pwrite off bs => decide (off + bs.size ≤ f.headerSize)
+     | .store off bs => decide (off + bs.size ≤ f.headerSize)
+     | _ => false) &&
+    noWriteBetween t c t.length &&
+    ((List.range c).any fun y =>
+      (t.getD y .close).fullSync (vol t (y + 1)).len && noWriteBetween t y c) &&
+    markerOK f t c
+
+/-- the clause "the completed header becomes visible only after all other bytes have been
+forced to stable storage", on its own -/
+def headerLast (f : Fmt) (t : Trace) : Bool :=
+  match commitIdx f t with
+  | none => false
+  | some c => (List.range c).any fun y =>
+      (t.getD y .close).fullSync (vol t (y + 1)).len && noWriteBetween t y c
+
+end Fs
+
 end KV.IO
